@@ -51,6 +51,7 @@ def good_paths(ctx, I, fn=None):
     import ast as _ast
     fn = fn or I.fn
     allp = I.paths()
+    I.all_paths = allp
     paths = [p for p in allp if p.status == "return"]
     memo = ctx.__dict__.setdefault("_c16_unbound", set())
     assigned = set()
